@@ -223,6 +223,14 @@ func checkProperty(prop, tier, repo, verif string, seed int, t0 time.Time) int {
 			vc := eng.verifyFunction(fc, md.m)
 			vcs = append(vcs, vc)
 		}
+		// race mode: clauses tagged <prop>r are proved with the contract's interference clauses applied
+		if len(fc.Interferences) > 0 {
+			vc := eng.verifyFunction(fc, &Mode{Props: map[string]bool{prop + "r": true}, Race: true})
+			for _, o := range vc.obls {
+				o.Name += "@race"
+			}
+			vcs = append(vcs, vc)
+		}
 		fnames = append(fnames, shortType(fc.Key))
 	}
 	if len(vcs) == 0 {
